@@ -7,7 +7,7 @@ from ..astutil import dotted, effective, method_call
 from ..cfg import canon_test, cfg_of, fact_key, norm, walk_own
 from ..consteval import Scope, fold_in
 from ..mutate import B, M
-from .c03 import toc_lookup_rules
+from .c03 import log_type_table_rules, toc_lookup_rules
 from ..symexec import paths_of, paths_of_block
 
 PROP = 'C05'
@@ -25,9 +25,9 @@ EXPLANATION = (
     '0/EEXIST for a block not yet added, flags follow the acknowledgements (create->added, start->started, stop->not started, '
     'delete/ENOENT->neither); R7 data packets: block id byte 0, little-endian 24-bit timestamp bytes 1..3, payload from 4, variables '
     'decoded in order with the table\'s format and size for fetch_as; R8 SyncLogger: samples enter one FIFO in callback order, leave one '
-    'per __next__, the disconnect sentinel is queued after disconnect(), the enqueue is unconditional; R10 the sample fan-out (Caller.call) invokes every registered consumer once over a snapshot (shared with C07.R2).')
+    'per __next__, the disconnect sentinel is queued after disconnect(), the enqueue is unconditional; R10 the sample fan-out (Caller.call) invokes every registered consumer once over a snapshot (shared with C07.R2); R11 the log type table (code -> C type, struct format, size) agrees with the firmware\'s log.h and the getters read the right column (shared with C03.R6).')
 ASSUMPTIONS = ['firmware reads log block records as type byte + 16-bit id (TOC) / 32-bit address (memory)']
-FLOORS = {'R9': 5, 'R1': 8, 'R2': 8, 'R3': 4, 'R4': 3, 'R5': 1, 'R6': 8, 'R7': 8, 'R8': 5, 'R10': 2}
+FLOORS = {'R9': 5, 'R1': 8, 'R2': 8, 'R3': 4, 'R4': 3, 'R5': 1, 'R6': 8, 'R7': 8, 'R8': 5, 'R10': 2, 'R11': 12}
 
 
 def check(ctx):
@@ -389,6 +389,7 @@ def check(ctx):
 
     # ---- R9: table look-ups used by this subsystem (shared rule, see C03.R8) -----------------
     toc_lookup_rules(ctx, 'R9')
+    log_type_table_rules(ctx, 'R11')       # size and format of every logged value: the type table against the firmware's log.h (shared with C03.R6)
 
 
 def fold_size(f, size):
